@@ -73,7 +73,12 @@ type taskState struct {
 	stack []*OpRec
 }
 
+// panicSentinel is what harness callbacks panic with. It is an error (the
+// most common kind of panic value, and the one generated code is most tempted
+// to treat specially).
 type panicSentinel struct{ op int }
+
+func (p *panicSentinel) Error() string { return fmt.Sprintf("sentinel(op %d)", p.op) }
 
 type runner struct {
 	c        *Cell
